@@ -7,8 +7,8 @@
 //          Verus cannot attach a specification to it)
 //   R12    `o.map_or(false, |x| B)` -> `match (o) { Some(x) => B, None => false }` (definition of Option::map_or)
 //   R13    `while let Some(&(_, c)) = E {` -> `while let Some(t__r) = E { let (_, c) = *t__r;` (reference patterns)
-// Not in this unit: `tokenize_chars` (iterator `map` + `collect` with a closure), the `unicode` tokenizers, the
-// `[u8]` implementations (bstr).
+// Not in this unit: `tokenize_chars` (iterator `map` + `collect` with a closure, probes/tok_tokenize_chars_map_collect.rs)
+// and the `unicode` tokenizers.  The `[u8]` implementations are in tokens_bytes.rs (same unit).
 //
 // Vocabulary that comes from vstd (trusted as part of the verifier's library, not declared here):
 //   `s@ : Seq<char>` and `s.spec_bytes() : Seq<u8>` with `s.spec_bytes() == encode_utf8(s@)`, `vstd::utf8::*`
@@ -52,6 +52,7 @@ pub struct ExCharIndices<'a>(CharIndices<'a>);
 pub struct ExPeekable<I: Iterator>(Peekable<I>);
 
 /// byte offset of the i-th char of a string with chars `cs`: the length of the UTF-8 encoding of the first i chars
+#[verifier::opaque]
 pub open spec fn off(cs: Seq<char>, i: int) -> int { encode_utf8(cs.take(i)).len() as int }
 
 /// what `char_indices` yields: (byte offset, char) for every char, in order
@@ -177,6 +178,7 @@ pub open spec fn pin_toks(v: &Vec<&str>) -> bool { true }
 pub proof fn lemma_tok_off_ends(cs: Seq<char>)
     ensures off(cs, 0) == 0, off(cs, cs.len() as int) == encode_utf8(cs).len(),
 {
+    reveal(off);
     assert(cs.take(0) =~= Seq::<char>::empty());
     assert(cs.take(cs.len() as int) =~= cs);
     encode_utf8_concat(Seq::<char>::empty(), Seq::<char>::empty());
@@ -189,6 +191,7 @@ pub proof fn lemma_tok_off_step(cs: Seq<char>, i: int)
     ensures off(cs, i + 1) == off(cs, i) + encode_scalar(cs[i] as u32).len(),
         1 <= encode_scalar(cs[i] as u32).len() <= 4,
 {
+    reveal(off);
     assert(cs.take(i + 1) =~= cs.take(i).push(cs[i]));
     encode_utf8_push(cs.take(i), cs[i]);
 }
@@ -197,6 +200,7 @@ pub proof fn lemma_tok_off_mono(cs: Seq<char>, i: int, j: int)
     requires 0 <= i <= j <= cs.len(),
     ensures off(cs, i) <= off(cs, j), i < j ==> off(cs, i) < off(cs, j), 0 <= off(cs, i), off(cs, j) <= encode_utf8(cs).len(),
 {
+    reveal(off);
     lemma_tok_off_ends(cs);
     if i < j { lemma_encode_utf8_len_strictly_monotonic(cs, i, j); }
     if 0 < i { lemma_encode_utf8_len_strictly_monotonic(cs, 0, i); }
@@ -208,6 +212,7 @@ pub proof fn lemma_tok_boundary(cs: Seq<char>, i: int)
     requires 0 <= i <= cs.len(),
     ensures is_char_boundary(encode_utf8(cs), off(cs, i)), 0 <= off(cs, i) <= encode_utf8(cs).len(),
 {
+    reveal(off);
     let b = encode_utf8(cs);
     encode_utf8_valid_utf8(cs);
     let h = cs.take(i); let t = cs.skip(i);
@@ -234,6 +239,7 @@ pub proof fn lemma_tok_sub_enc(cs: Seq<char>, a: int, b: int)
     ensures encode_utf8(cs).subrange(off(cs, a), off(cs, b)) == encode_utf8(cs.subrange(a, b)),
         off(cs, b) - off(cs, a) == encode_utf8(cs.subrange(a, b)).len(),
 {
+    reveal(off);
     let h = cs.take(a); let m = cs.subrange(a, b); let t = cs.skip(b);
     assert(h + m =~= cs.take(b));
     assert(cs.take(b) + t =~= cs);
@@ -276,27 +282,6 @@ pub proof fn lemma_tok_pair(cs: Seq<char>, k: int)
     assert(char_pairs(cs).skip(k).skip(1) =~= char_pairs(cs).skip(k + 1));
 }
 
-/// (P) spelled out: a partition has non-empty tokens whose concatenation is the input, byte for byte (and char
-/// for char)
-pub proof fn lemma_tok_partition_concat(s: &str, toks: Seq<&str>, c: Seq<int>)
-    requires partition(s, toks, c),
-    ensures cat_bytes(toks) == s.spec_bytes(), cat_chars(toks) == s@,
-        forall|k: int| 0 <= k < toks.len() ==> (#[trigger] toks[k]).spec_bytes().len() > 0 && toks[k]@.len() > 0,
-{
-    let cs = s@;
-    lemma_tok_off_ends(cs);
-    assert forall|k: int| 0 <= k < toks.len() implies (#[trigger] toks[k]).spec_bytes().len() > 0 && toks[k]@.len() > 0 by {
-        assert(tok_is(s, toks[k], c[k], c[k + 1]));
-        lemma_tok_cuts_bounds(c, cs.len() as int, k);
-        lemma_tok_cuts_bounds(c, cs.len() as int, k + 1);
-        lemma_tok_off_mono(cs, c[k], c[k + 1]);
-    }
-    lemma_tok_concat_prefix(s, toks, c, toks.len() as int);
-    assert(toks.take(toks.len() as int) =~= toks);
-    assert(cs.subrange(0, cs.len() as int) =~= cs);
-    assert(s.spec_bytes().subrange(0, s.spec_bytes().len() as int) =~= s.spec_bytes());
-}
-
 pub proof fn lemma_tok_cuts_bounds(c: Seq<int>, n: int, k: int)
     requires cuts_ok(c, n), 0 <= k < c.len(),
     ensures 0 <= c[k] <= n, k + 1 < c.len() ==> c[k] < c[k + 1],
@@ -305,30 +290,194 @@ pub proof fn lemma_tok_cuts_bounds(c: Seq<int>, n: int, k: int)
     if k < c.len() - 1 { assert(c[k] < c[c.len() - 1]); assert(c[k] < c[k + 1]); }
 }
 
-pub proof fn lemma_tok_concat_prefix(s: &str, toks: Seq<&str>, c: Seq<int>, m: int)
-    requires partition(s, toks, c), 0 <= m <= toks.len(),
-    ensures cat_bytes(toks.take(m)) == s.spec_bytes().subrange(0, off(s@, c[m])),
-        cat_chars(toks.take(m)) == s@.subrange(0, c[m]),
+pub proof fn lemma_tok_seq_join<A>(q: Seq<A>, x: int, y: int)
+    requires 0 <= x <= y <= q.len(),
+    ensures q.subrange(0, x) + q.subrange(x, y) == q.subrange(0, y),
+{
+    assert(q.subrange(0, x) + q.subrange(x, y) =~= q.subrange(0, y));
+}
+
+/// token k is the piece bo[k]..bo[k+1] of the bytes and the piece c[k]..c[k+1] of the chars
+pub open spec fn piece(toks: Seq<&str>, bytes: Seq<u8>, cs: Seq<char>, bo: Seq<int>, c: Seq<int>, k: int) -> bool {
+    &&& 0 <= bo[k] <= bo[k + 1] <= bytes.len() && toks[k].spec_bytes() == bytes.subrange(bo[k], bo[k + 1])
+    &&& 0 <= c[k] <= c[k + 1] <= cs.len() && toks[k]@ == cs.subrange(c[k], c[k + 1])
+}
+
+/// contiguous pieces that start at 0 concatenate to a prefix
+pub proof fn lemma_tok_cat_prefix(toks: Seq<&str>, bytes: Seq<u8>, cs: Seq<char>, bo: Seq<int>, c: Seq<int>, m: int)
+    requires 0 <= m <= toks.len(), bo.len() == toks.len() + 1, c.len() == toks.len() + 1, bo[0] == 0, c[0] == 0,
+        forall|k: int| 0 <= k < toks.len() ==> #[trigger] piece(toks, bytes, cs, bo, c, k),
+    ensures cat_bytes(toks.take(m)) == bytes.subrange(0, bo[m]), cat_chars(toks.take(m)) == cs.subrange(0, c[m]),
+        0 <= bo[m] <= bytes.len(), 0 <= c[m] <= cs.len(),
     decreases m,
+{
+    if m == 0 {
+        assert(toks.take(0) =~= Seq::<&str>::empty());
+        assert(bytes.subrange(0, 0) =~= Seq::<u8>::empty());
+        assert(cs.subrange(0, 0) =~= Seq::<char>::empty());
+    } else {
+        lemma_tok_cat_prefix(toks, bytes, cs, bo, c, m - 1);
+        assert(piece(toks, bytes, cs, bo, c, m - 1));
+        let p = toks.take(m);
+        let t = toks[m - 1];
+        assert(p.drop_last() =~= toks.take(m - 1));
+        assert(p.last() == t);
+        assert(cat_bytes(p) == cat_bytes(p.drop_last()) + p.last().spec_bytes());
+        assert(cat_chars(p) == cat_chars(p.drop_last()) + p.last()@);
+        lemma_tok_seq_join(bytes, bo[m - 1], bo[m]);
+        lemma_tok_seq_join(cs, c[m - 1], c[m]);
+    }
+}
+
+/// byte cut points of the char cut points c
+pub open spec fn byte_cuts(cs: Seq<char>, c: Seq<int>) -> Seq<int> { Seq::new(c.len(), |k: int| off(cs, c[k])) }
+
+pub proof fn lemma_tok_partition_shape(s: &str, toks: Seq<&str>, c: Seq<int>)
+    requires partition(s, toks, c),
+    ensures c.len() == toks.len() + 1, c[0] == 0, c[toks.len() as int] == s@.len(),
+        byte_cuts(s@, c).len() == c.len(), byte_cuts(s@, c)[0] == 0, byte_cuts(s@, c)[toks.len() as int] == s.spec_bytes().len(),
+{
+    lemma_tok_off_ends(s@);
+}
+
+pub proof fn lemma_tok_partition_piece(s: &str, toks: Seq<&str>, c: Seq<int>, k: int)
+    requires partition(s, toks, c), 0 <= k < toks.len(),
+    ensures piece(toks, s.spec_bytes(), s@, byte_cuts(s@, c), c, k), toks[k].spec_bytes().len() > 0, toks[k]@.len() > 0,
 {
     let cs = s@;
     lemma_tok_off_ends(cs);
-    if m == 0 {
-        assert(toks.take(0) =~= Seq::<&str>::empty());
-        assert(s.spec_bytes().subrange(0, 0) =~= Seq::<u8>::empty());
-        assert(cs.subrange(0, 0) =~= Seq::<char>::empty());
-    } else {
-        lemma_tok_concat_prefix(s, toks, c, m - 1);
-        let p = toks.take(m);
-        assert(p.drop_last() =~= toks.take(m - 1));
-        assert(p.last() == toks[m - 1]);
-        assert(tok_is(s, toks[m - 1], c[m - 1], c[m - 1 + 1]));
-        lemma_tok_cuts_bounds(c, cs.len() as int, m - 1);
-        lemma_tok_cuts_bounds(c, cs.len() as int, m);
-        lemma_tok_off_mono(cs, c[m - 1], c[m]);
-        assert(s.spec_bytes().subrange(0, off(cs, c[m - 1])) + s.spec_bytes().subrange(off(cs, c[m - 1]), off(cs, c[m]))
-            =~= s.spec_bytes().subrange(0, off(cs, c[m])));
-        assert(cs.subrange(0, c[m - 1]) + cs.subrange(c[m - 1], c[m]) =~= cs.subrange(0, c[m]));
+    assert(tok_is(s, toks[k], c[k], c[k + 1]));
+    lemma_tok_cuts_bounds(c, cs.len() as int, k);
+    lemma_tok_cuts_bounds(c, cs.len() as int, k + 1);
+    lemma_tok_off_mono(cs, c[k], c[k + 1]);
+}
+
+/// (P) spelled out: a partition has non-empty tokens whose concatenation is the input, byte for byte (and char
+/// for char)
+pub proof fn lemma_tok_partition_concat(s: &str, toks: Seq<&str>, c: Seq<int>)
+    requires partition(s, toks, c),
+    ensures cat_bytes(toks) == s.spec_bytes(), cat_chars(toks) == s@,
+        forall|k: int| 0 <= k < toks.len() ==> (#[trigger] toks[k]).spec_bytes().len() > 0 && toks[k]@.len() > 0,
+{
+    hide(partition); hide(piece); hide(byte_cuts);
+    let cs = s@;
+    let bytes = s.spec_bytes();
+    let bo = byte_cuts(cs, c);
+    lemma_tok_partition_shape(s, toks, c);
+    assert forall|k: int| 0 <= k < toks.len() implies #[trigger] piece(toks, bytes, cs, bo, c, k) by {
+        lemma_tok_partition_piece(s, toks, c, k);
+    }
+    assert forall|k: int| 0 <= k < toks.len() implies (#[trigger] toks[k]).spec_bytes().len() > 0 && toks[k]@.len() > 0 by {
+        lemma_tok_partition_piece(s, toks, c, k);
+    }
+    lemma_tok_cat_prefix(toks, bytes, cs, bo, c, toks.len() as int);
+    assert(toks.take(toks.len() as int) =~= toks);
+    assert(cs.subrange(0, cs.len() as int) =~= cs);
+    assert(bytes.subrange(0, bytes.len() as int) =~= bytes);
+}
+
+// ---------------------------------------------------------------------------------------------
+// 3b. The specifications determine the tokens (so two implementations that meet them agree)
+// ---------------------------------------------------------------------------------------------
+
+/// a line that starts at a cannot end in two places
+pub proof fn lemma_tok_line_end_unique(cs: Seq<char>, a: int, b1: int, b2: int)
+    requires 0 <= a < b1 < b2 <= cs.len(), line_tok_ok(cs, a, b1), line_tok_ok(cs, a, b2),
+    ensures false,
+{
+    // the shorter token is not the last one, so it ends in a terminator; its last char is a line-break character
+    assert(term_len(cs, a, b1) != 0);
+    assert(is_nl(cs[b1 - 1]));
+    // inside the longer token that character can only be the CR of a final CRLF: then CR LF was split
+    if b1 - 1 < b2 - term_len(cs, a, b2) {
+        assert(!is_nl(cs[b1 - 1]));
+    }
+}
+
+/// a run that starts at a cannot end in two places
+pub proof fn lemma_tok_run_end_unique(cs: Seq<char>, w: bool, a: int, b1: int, b2: int)
+    requires 0 <= a < b1 < b2 <= cs.len(), run_tok_ok(cs, w, a, b1), run_tok_ok(cs, w, a, b2),
+    ensures false,
+{
+    assert(cls(w, cs[b1]) == cls(w, cs[a]));
+}
+
+/// two cut lists whose pieces satisfy a predicate that fixes the end of a piece given its start are equal
+pub proof fn lemma_tok_cuts_unique(n: int, c1: Seq<int>, c2: Seq<int>, ok: spec_fn(int, int) -> bool)
+    requires cuts_ok(c1, n), cuts_ok(c2, n),
+        forall|k: int| 0 <= k < c1.len() - 1 ==> #[trigger] ok(c1[k], c1[k + 1]),
+        forall|k: int| 0 <= k < c2.len() - 1 ==> #[trigger] ok(c2[k], c2[k + 1]),
+        forall|a: int, b1: int, b2: int| 0 <= a < b1 < b2 <= n && #[trigger] ok(a, b1) && #[trigger] ok(a, b2) ==> false,
+    ensures c1 == c2,
+{
+    lemma_tok_cuts_unique_prefix(n, c1, c2, ok, (if c1.len() <= c2.len() { c1.len() } else { c2.len() }) as int - 1);
+    let l = (if c1.len() <= c2.len() { c1.len() } else { c2.len() }) as int;
+    if c1.len() < c2.len() { lemma_tok_cuts_bounds(c2, n, l - 1); lemma_tok_cuts_bounds(c2, n, l); }
+    if c2.len() < c1.len() { lemma_tok_cuts_bounds(c1, n, l - 1); lemma_tok_cuts_bounds(c1, n, l); }
+    assert(c1.len() == c2.len());
+    assert forall|k: int| 0 <= k < c1.len() implies c1[k] == c2[k] by {
+        lemma_tok_cuts_unique_prefix(n, c1, c2, ok, k);
+    }
+    assert(c1 =~= c2);
+}
+
+pub proof fn lemma_tok_cuts_unique_prefix(n: int, c1: Seq<int>, c2: Seq<int>, ok: spec_fn(int, int) -> bool, k: int)
+    requires cuts_ok(c1, n), cuts_ok(c2, n), 0 <= k < c1.len(), k < c2.len(),
+        forall|k: int| 0 <= k < c1.len() - 1 ==> #[trigger] ok(c1[k], c1[k + 1]),
+        forall|k: int| 0 <= k < c2.len() - 1 ==> #[trigger] ok(c2[k], c2[k + 1]),
+        forall|a: int, b1: int, b2: int| 0 <= a < b1 < b2 <= n && #[trigger] ok(a, b1) && #[trigger] ok(a, b2) ==> false,
+    ensures c1[k] == c2[k],
+    decreases k,
+{
+    if k > 0 {
+        lemma_tok_cuts_unique_prefix(n, c1, c2, ok, k - 1);
+        lemma_tok_cuts_bounds(c1, n, k - 1); lemma_tok_cuts_bounds(c1, n, k);
+        lemma_tok_cuts_bounds(c2, n, k - 1); lemma_tok_cuts_bounds(c2, n, k);
+        assert(ok(c1[k - 1], c1[k - 1 + 1]));
+        assert(ok(c2[k - 1], c2[k - 1 + 1]));
+    }
+}
+
+/// (L) determines the line tokens: two token lists that meet `lines_spec` for the same input are the same, token
+/// by token, as chars and as bytes
+pub proof fn lemma_tok_lines_unique(s: &str, t1: Seq<&str>, c1: Seq<int>, t2: Seq<&str>, c2: Seq<int>)
+    requires lines_spec(s, t1, c1), lines_spec(s, t2, c2),
+    ensures c1 == c2, t1.len() == t2.len(),
+        forall|k: int| 0 <= k < t1.len() ==> (#[trigger] t1[k])@ == t2[k]@ && t1[k].spec_bytes() == t2[k].spec_bytes(),
+{
+    let cs = s@;
+    let n = cs.len() as int;
+    let ok = |a: int, b: int| line_tok_ok(cs, a, b);
+    assert forall|a: int, b1: int, b2: int| 0 <= a < b1 < b2 <= n && #[trigger] ok(a, b1) && #[trigger] ok(a, b2) implies false by {
+        lemma_tok_line_end_unique(cs, a, b1, b2);
+    }
+    assert forall|k: int| 0 <= k < c1.len() - 1 implies #[trigger] ok(c1[k], c1[k + 1]) by { assert(line_tok_ok(cs, c1[k], c1[k + 1])); }
+    assert forall|k: int| 0 <= k < c2.len() - 1 implies #[trigger] ok(c2[k], c2[k + 1]) by { assert(line_tok_ok(cs, c2[k], c2[k + 1])); }
+    lemma_tok_cuts_unique(n, c1, c2, ok);
+    assert forall|k: int| 0 <= k < t1.len() implies (#[trigger] t1[k])@ == t2[k]@ && t1[k].spec_bytes() == t2[k].spec_bytes() by {
+        assert(tok_is(s, t1[k], c1[k], c1[k + 1]));
+        assert(tok_is(s, t2[k], c2[k], c2[k + 1]));
+    }
+}
+
+/// (W)/(N) determine the run tokens
+pub proof fn lemma_tok_runs_unique(s: &str, w: bool, t1: Seq<&str>, c1: Seq<int>, t2: Seq<&str>, c2: Seq<int>)
+    requires runs_spec(s, w, t1, c1), runs_spec(s, w, t2, c2),
+    ensures c1 == c2, t1.len() == t2.len(),
+        forall|k: int| 0 <= k < t1.len() ==> (#[trigger] t1[k])@ == t2[k]@ && t1[k].spec_bytes() == t2[k].spec_bytes(),
+{
+    let cs = s@;
+    let n = cs.len() as int;
+    let ok = |a: int, b: int| run_tok_ok(cs, w, a, b);
+    assert forall|a: int, b1: int, b2: int| 0 <= a < b1 < b2 <= n && #[trigger] ok(a, b1) && #[trigger] ok(a, b2) implies false by {
+        lemma_tok_run_end_unique(cs, w, a, b1, b2);
+    }
+    assert forall|k: int| 0 <= k < c1.len() - 1 implies #[trigger] ok(c1[k], c1[k + 1]) by { assert(run_tok_ok(cs, w, c1[k], c1[k + 1])); }
+    assert forall|k: int| 0 <= k < c2.len() - 1 implies #[trigger] ok(c2[k], c2[k + 1]) by { assert(run_tok_ok(cs, w, c2[k], c2[k + 1])); }
+    lemma_tok_cuts_unique(n, c1, c2, ok);
+    assert forall|k: int| 0 <= k < t1.len() implies (#[trigger] t1[k])@ == t2[k]@ && t1[k].spec_bytes() == t2[k].spec_bytes() by {
+        assert(tok_is(s, t1[k], c1[k], c1[k + 1]));
+        assert(tok_is(s, t2[k], c2[k], c2[k + 1]));
     }
 }
 
@@ -336,16 +485,22 @@ pub proof fn lemma_tok_concat_prefix(s: &str, toks: Seq<&str>, c: Seq<int>, m: i
 // 4. The code of /repo
 // ---------------------------------------------------------------------------------------------
 
-//@@ item src/text/abstraction.rs :: ^pub trait DiffableStr\b only=fn\s+tokenize_(lines|lines_and_newlines|words)\( rw=R0
+} // verus!
+
+// The trait declaration is taken outside the `verus!` block (attribute form), so that the function table of
+// tools/vx.py, which names the methods of `impl DiffableStr for [u8]` `DiffableStr::tokenize_*`, has no second entry
+// of that name.  It carries no contract: the contracts are on the two impls.
+/*@*/ #[verus_verify]
+//@@ item src/text/abstraction.rs :: ^pub trait DiffableStr\b only=fn\s+tokenize_(lines|lines_and_newlines|words)\(
 pub trait DiffableStr: Hash + PartialEq + PartialOrd + Ord + Eq + ToOwned {
     /// Splits the value into newlines with newlines attached.
-    fn tokenize_lines(&self) -> (res: Vec<&Self>);
+    fn tokenize_lines(&self) -> Vec<&Self>;
 
     /// Splits the value into newlines with newlines separated.
-    fn tokenize_lines_and_newlines(&self) -> (res: Vec<&Self>);
+    fn tokenize_lines_and_newlines(&self) -> Vec<&Self>;
 
     /// Tokenizes into words.
-    fn tokenize_words(&self) -> (res: Vec<&Self>);
+    fn tokenize_words(&self) -> Vec<&Self>;
 
 
 
@@ -359,10 +514,17 @@ pub trait DiffableStr: Hash + PartialEq + PartialOrd + Ord + Eq + ToOwned {
 }
 //@@ end
 
+verus! {
+
 //@@ item src/text/abstraction.rs :: ^impl DiffableStr for str only=fn\s+tokenize_(lines|lines_and_newlines|words)\( rw=R0,R8,R13,R12,R11
 impl DiffableStr for str {
     fn tokenize_lines(&self) -> (res: Vec<&Self>)
-    /*@*/     ensures exists|c: Seq<int>| lines_spec(self, res@, c),
+    /*@*/     ensures
+    /*@*/         // (P) non-empty tokens whose concatenation is the input, byte for byte
+    /*@*/         cat_bytes(res@) == self.spec_bytes(),
+    /*@*/         forall|k: int| 0 <= k < res@.len() ==> (#[trigger] res@[k]).spec_bytes().len() > 0,
+    /*@*/         // (P)+(L) contiguous pieces cut at char positions, every piece a line (see line_tok_ok)
+    /*@*/         exists|c: Seq<int>| lines_spec(self, res@, c),
     {
         /*@*/ let ghost cs = self@; let ghost n = cs.len() as int;
         /*@*/ proof { axiom_str_len_fits_usize(self); lemma_tok_off_ends(cs); }
@@ -376,13 +538,15 @@ impl DiffableStr for str {
         /*@*/     invariant
         /*@*/         cs == self@, n == cs.len(), self.spec_bytes() == encode_utf8(cs), encode_utf8(cs).len() <= usize::MAX,
         /*@*/         off(cs, n) == encode_utf8(cs).len(),
-        /*@*/         it_laws(&iter), it_rem(&iter) == char_pairs(cs).skip(k), 0 <= k <= n,
-        /*@*/         cut.len() == lines@.len() + 1, cut[0] == 0, 0 <= cut.last() <= k,
+        /*@*/         it_laws(&iter), 0 <= k <= n,
+        /*@*/         it_rem(&iter) == char_pairs(cs).skip(k),                    // the iterator is at char k
+        /*@*/         cut.len() == lines@.len() + 1, cut[0] == 0,
+        /*@*/         0 <= cut.last() <= k,                                       // the pending line starts at char cut.last()
         /*@*/         forall|i: int, j: int| 0 <= i < j < cut.len() ==> #[trigger] cut[i] < #[trigger] cut[j],
-        /*@*/         last_pos as int == off(cs, cut.last()),
+        /*@*/         last_pos as int == off(cs, cut.last()),                     // last_pos is the byte offset of the pending line
         /*@*/         forall|j: int| 0 <= j < lines@.len() ==> tok_is(self, #[trigger] lines@[j], cut[j], cut[j + 1]),
         /*@*/         forall|j: int| 0 <= j < lines@.len() ==> #[trigger] line_tok_ok(cs, cut[j], cut[j + 1]),
-        /*@*/         forall|j: int| cut.last() <= j < k ==> !is_nl(#[trigger] cs[j]),
+        /*@*/         forall|j: int| cut.last() <= j < k ==> !is_nl(#[trigger] cs[j]),   // no line break in the pending line
         /*@*/     ensures k == n,
         /*@*/     decreases n - k,
         {
@@ -448,12 +612,18 @@ impl DiffableStr for str {
         /*@*/ proof {
         /*@*/     assert(cut.last() == n);
         /*@*/     assert(lines_spec(self, lines@, cut));
+        /*@*/     lemma_tok_partition_concat(self, lines@, cut);
         /*@*/ }
         lines
     }
 
     fn tokenize_lines_and_newlines(&self) -> (res: Vec<&Self>)
-    /*@*/     ensures exists|c: Seq<int>| runs_spec(self, false, res@, c),
+    /*@*/     ensures
+    /*@*/         // (P) non-empty tokens whose concatenation is the input, byte for byte
+    /*@*/         cat_bytes(res@) == self.spec_bytes(),
+    /*@*/         forall|k: int| 0 <= k < res@.len() ==> (#[trigger] res@[k]).spec_bytes().len() > 0,
+    /*@*/         // (P)+(N) a maximal run of line-break / non-line-break chars (see run_tok_ok)
+    /*@*/         exists|c: Seq<int>| runs_spec(self, false, res@, c),
     {
         /*@*/ let ghost cs = self@; let ghost n = cs.len() as int;
         /*@*/ proof { axiom_str_len_fits_usize(self); lemma_tok_off_ends(cs); }
@@ -466,8 +636,10 @@ impl DiffableStr for str {
         /*@*/     invariant
         /*@*/         cs == self@, n == cs.len(), self.spec_bytes() == encode_utf8(cs), encode_utf8(cs).len() <= usize::MAX,
         /*@*/         off(cs, n) == encode_utf8(cs).len(),
-        /*@*/         it_laws(&iter), it_rem(&iter) == char_pairs(cs).skip(k), 0 <= k <= n,
-        /*@*/         cut.len() == rv@.len() + 1, cut[0] == 0, cut.last() == k,
+        /*@*/         it_laws(&iter), 0 <= k <= n,
+        /*@*/         it_rem(&iter) == char_pairs(cs).skip(k),                    // the iterator is at char k
+        /*@*/         cut.len() == rv@.len() + 1, cut[0] == 0,
+        /*@*/         cut.last() == k,                                            // the tokens so far end at char k
         /*@*/         forall|i: int, j: int| 0 <= i < j < cut.len() ==> #[trigger] cut[i] < #[trigger] cut[j],
         /*@*/         forall|j: int| 0 <= j < rv@.len() ==> tok_is(self, #[trigger] rv@[j], cut[j], cut[j + 1]),
         /*@*/         forall|j: int| 0 <= j < rv@.len() ==> #[trigger] run_tok_ok(cs, false, cut[j], cut[j + 1]),
@@ -482,10 +654,12 @@ impl DiffableStr for str {
             while let Some(t__r) = iter.peek()
             /*@*/     invariant
             /*@*/         cs == self@, n == cs.len(), encode_utf8(cs).len() <= usize::MAX, off(cs, n) == encode_utf8(cs).len(),
-            /*@*/         it_laws(&iter), it_rem(&iter) == char_pairs(cs).skip(m), 0 <= k0 < m <= n,
-            /*@*/         end as int == off(cs, m), is_newline == cls(false, cs[k0]),
-            /*@*/         forall|j: int| k0 <= j < m ==> cls(false, #[trigger] cs[j]) == cls(false, cs[k0]),
-            /*@*/     ensures m == n || cls(false, cs[m]) != cls(false, cs[k0]),
+            /*@*/         it_laws(&iter), 0 <= k0 < m <= n,
+            /*@*/         it_rem(&iter) == char_pairs(cs).skip(m),                // the iterator is at char m
+            /*@*/         end as int == off(cs, m),                              // end is the byte offset of char m
+            /*@*/         is_newline == cls(false, cs[k0]),
+            /*@*/         forall|j: int| k0 <= j < m ==> cls(false, #[trigger] cs[j]) == cls(false, cs[k0]),   // one class so far
+            /*@*/     ensures m == n || cls(false, cs[m]) != cls(false, cs[k0]),             // the run is maximal
             /*@*/     decreases n - m,
             {
                 /*@*/ proof { lemma_tok_pair(cs, m); lemma_tok_cls(cs[m]); }
@@ -507,12 +681,20 @@ impl DiffableStr for str {
             /*@*/ }
         }
 
-        /*@*/ proof { assert(runs_spec(self, false, rv@, cut)); }
+        /*@*/ proof {
+        /*@*/     assert(runs_spec(self, false, rv@, cut));
+        /*@*/     lemma_tok_partition_concat(self, rv@, cut);
+        /*@*/ }
         rv
     }
 
     fn tokenize_words(&self) -> (res: Vec<&Self>)
-    /*@*/     ensures exists|c: Seq<int>| runs_spec(self, true, res@, c),
+    /*@*/     ensures
+    /*@*/         // (P) non-empty tokens whose concatenation is the input, byte for byte
+    /*@*/         cat_bytes(res@) == self.spec_bytes(),
+    /*@*/         forall|k: int| 0 <= k < res@.len() ==> (#[trigger] res@[k]).spec_bytes().len() > 0,
+    /*@*/         // (P)+(W) a maximal run of whitespace / non-whitespace chars (see run_tok_ok)
+    /*@*/         exists|c: Seq<int>| runs_spec(self, true, res@, c),
     {
         /*@*/ let ghost cs = self@; let ghost n = cs.len() as int;
         /*@*/ proof { axiom_str_len_fits_usize(self); lemma_tok_off_ends(cs); }
@@ -525,8 +707,10 @@ impl DiffableStr for str {
         /*@*/     invariant
         /*@*/         cs == self@, n == cs.len(), self.spec_bytes() == encode_utf8(cs), encode_utf8(cs).len() <= usize::MAX,
         /*@*/         off(cs, n) == encode_utf8(cs).len(),
-        /*@*/         it_laws(&iter), it_rem(&iter) == char_pairs(cs).skip(k), 0 <= k <= n,
-        /*@*/         cut.len() == rv@.len() + 1, cut[0] == 0, cut.last() == k,
+        /*@*/         it_laws(&iter), 0 <= k <= n,
+        /*@*/         it_rem(&iter) == char_pairs(cs).skip(k),                    // the iterator is at char k
+        /*@*/         cut.len() == rv@.len() + 1, cut[0] == 0,
+        /*@*/         cut.last() == k,                                            // the tokens so far end at char k
         /*@*/         forall|i: int, j: int| 0 <= i < j < cut.len() ==> #[trigger] cut[i] < #[trigger] cut[j],
         /*@*/         forall|j: int| 0 <= j < rv@.len() ==> tok_is(self, #[trigger] rv@[j], cut[j], cut[j + 1]),
         /*@*/         forall|j: int| 0 <= j < rv@.len() ==> #[trigger] run_tok_ok(cs, true, cut[j], cut[j + 1]),
@@ -541,10 +725,12 @@ impl DiffableStr for str {
             while let Some(t__r) = iter.peek()
             /*@*/     invariant
             /*@*/         cs == self@, n == cs.len(), encode_utf8(cs).len() <= usize::MAX, off(cs, n) == encode_utf8(cs).len(),
-            /*@*/         it_laws(&iter), it_rem(&iter) == char_pairs(cs).skip(m), 0 <= k0 < m <= n,
-            /*@*/         end as int == off(cs, m), is_whitespace == cls(true, cs[k0]),
-            /*@*/         forall|j: int| k0 <= j < m ==> cls(true, #[trigger] cs[j]) == cls(true, cs[k0]),
-            /*@*/     ensures m == n || cls(true, cs[m]) != cls(true, cs[k0]),
+            /*@*/         it_laws(&iter), 0 <= k0 < m <= n,
+            /*@*/         it_rem(&iter) == char_pairs(cs).skip(m),                // the iterator is at char m
+            /*@*/         end as int == off(cs, m),                              // end is the byte offset of char m
+            /*@*/         is_whitespace == cls(true, cs[k0]),
+            /*@*/         forall|j: int| k0 <= j < m ==> cls(true, #[trigger] cs[j]) == cls(true, cs[k0]),   // one class so far
+            /*@*/     ensures m == n || cls(true, cs[m]) != cls(true, cs[k0]),             // the run is maximal
             /*@*/     decreases n - m,
             {
                 /*@*/ proof { lemma_tok_pair(cs, m); lemma_tok_cls(cs[m]); }
@@ -566,7 +752,10 @@ impl DiffableStr for str {
             /*@*/ }
         }
 
-        /*@*/ proof { assert(runs_spec(self, true, rv@, cut)); }
+        /*@*/ proof {
+        /*@*/     assert(runs_spec(self, true, rv@, cut));
+        /*@*/     lemma_tok_partition_concat(self, rv@, cut);
+        /*@*/ }
         rv
     }
 
